@@ -244,3 +244,24 @@ pub fn plain_decimal(j: &J) -> String {
     body
   }
 }
+
+/// Short human-readable rendering of a spec-encoded number (or other value) for messages.
+pub fn plain_or_sci(j: &J) -> String {
+  if j.is_null() {
+    return "-".to_string();
+  }
+  match j["k"].as_str() {
+    Some("null") => "null".to_string(),
+    Some("num") if j["fin"] == false => "non-finite".to_string(),
+    Some("panic") => "PANIC".to_string(),
+    Some(k) if k != "num" => format!("<{}>", k),
+    _ => {
+      let digits: String = j["c"].as_array().map(|a| a.iter().map(|d| d.as_u64().unwrap_or(0).to_string()).collect()).unwrap_or_default();
+      if digits.is_empty() {
+        "0".to_string()
+      } else {
+        format!("{}{}E{}", if j["s"] == 1 { "-" } else { "" }, digits, j["e"])
+      }
+    }
+  }
+}
